@@ -646,8 +646,8 @@ STR_HITS = ["text", "tstr"]
 NUM_HITS = ["uint", "nint", "integer", "int", "number", "float", "float16", "float32", "float64", "float16-32", "float32-64", "unsigned"]
 UINT_HITS = ["uint"]
 # json.rs visit_control_operator: the `||` chain of helpers asked about the TARGET name
-CTL_HITS = {".size": [STR_HITS, UINT_HITS], ".eq": [STR_HITS, NUM_HITS], ".ne": [STR_HITS, NUM_HITS], ".lt": [NUM_HITS], ".le": [NUM_HITS],
-            ".gt": [NUM_HITS], ".ge": [NUM_HITS], ".regexp": [STR_HITS]}
+CTL_HITS = {".size": [STR_HITS, UINT_HITS], ".eq": [STR_HITS, NUM_HITS], ".ne": [STR_HITS, NUM_HITS], ".lt": [STR_HITS, NUM_HITS],
+            ".le": [STR_HITS, NUM_HITS], ".gt": [STR_HITS, NUM_HITS], ".ge": [STR_HITS, NUM_HITS], ".regexp": [STR_HITS]}
 LEAVES = ["tstr", "text", "uint", "int", "float", "bool", "nint", "number", "bstr", "null", "any", "undefinedleaf"]
 
 
